@@ -120,5 +120,36 @@ func TestC05Overlap(t *testing.T) {
 			rep.Sample(map[string]interface{}{"overlap_conditions": desc, "history": hist})
 		}
 	}
+	// a stub without a default: a call no condition accepts panics (C04) - and leaves the sequences where they were: the
+	// calls after it receive the next elements
+	for _, form := range []string{"func", "method"} {
+		b := mocker.Create()
+		var call func(a int) int
+		if form == "func" {
+			b.Func(S1).When(1).Returns(10, 11, 12).When(2).Returns(20, 21)
+			call = S1
+		} else {
+			b.Struct(&T{}).Method("M").When(1).Returns(10, 11, 12).When(2).Returns(20, 21)
+			call = (&T{}).M
+		}
+		rep.Journal(map[string]interface{}{"part": "uncovered call between covered ones", "form": form, "crashkey": "C05/calls-after-an-uncovered-call-never-return"})
+		var got []int
+		for _, a := range []int{1, 3, 1, 2, 3, 3, 1, 2, 1, 2} {
+			func() {
+				defer func() {
+					if r := recover(); r != nil {
+						got = append(got, -1)
+					}
+				}()
+				got = append(got, call(a))
+			}()
+		}
+		b.Reset()
+		rep.Eval(10)
+		rep.Class("uncovered-call-between-covered-ones/" + form)
+		if want := []int{10, -1, 11, 20, -1, -1, 12, 21, 12, 21}; fmt.Sprint(got) != fmt.Sprint(want) {
+			rep.Violate("C05/sequence-disturbed-by-an-uncovered-call", fmt.Sprintf("%s: When(1).Returns(10,11,12), When(2).Returns(20,21), no default; calls 1,3,1,2,3,3,1,2,1,2 give %v (-1: panicked), want %v", form, got, want), nil)
+		}
+	}
 	rep.Stat("overlap_histories", int64(n))
 }
